@@ -4,6 +4,5 @@ cd /verif/seeded
 for d in *; do
   [ -f $d/patch.diff ] || continue
   prop=$(python3 -c "import json;print(json.load(open('$d/meta.json'))['breaks_property'])")
-  if [ "$prop" = "C13" ]; then echo "$d check=- not run: C13 is not claimed"; continue; fi
   /verif/tools/seed_matrix.sh $d $prop
 done
